@@ -251,7 +251,9 @@ func callHash(list []string, delay bool, inject func(name string, args []string)
 	o.Returned = true
 	o.ElapsedMS = time.Since(t0).Milliseconds()
 	// quiescence: the feeder, the closer and the workers are all on their way out
-	for i := 0; i < 400; i++ {
+	// (polled for up to 10 s so that a loaded machine cannot turn slowness into a verdict: a goroutine
+	// that is really left behind is blocked for good and is still there afterwards)
+	for i := 0; i < 20000; i++ {
 		o.GorAfter = runtime.NumGoroutine()
 		if o.GorAfter <= o.GorBefore && starts.Load() == exits.Load() {
 			break
@@ -423,7 +425,7 @@ func c04Worker(c *core.Ctx, job hashJob, res *core.ShardResult, wl *core.WLog) {
 				res.Seen("arrival_orders", fmt.Sprintf("%x", core.Hash64(o.Arrival...)))
 			}
 			if o.LeakDump != "" {
-				res.Count("calls_not_quiescent_in_200ms", 1)
+				res.Count("calls_not_quiescent_in_10s", 1)
 			}
 		}
 		res.Count("lists", 1)
@@ -753,6 +755,13 @@ func c18Worker(c *core.Ctx, job hashJob, res *core.ShardResult, wl *core.WLog) {
 				v.Case = core.JSON(k)
 				res.Violate(v)
 			}
+			if res.Counters["violations_total"] >= 3 {
+				break // a violating call can cost 10 s of quiescence polling: the verdict is settled
+			}
+		}
+		if res.Counters["violations_total"] >= 3 {
+			res.Count("stopped_early_after_violations", 1)
+			break
 		}
 		res.Nontrivial++
 	}
@@ -866,7 +875,7 @@ func c18Run(c *core.Ctx) bool {
 		"exhaustive":          false,
 	}
 	c.WriteEvidence("fault_enumeration", cov, []string{
-		"goroutine conservation: hash.worker.start events = hash.worker.exit events and runtime.NumGoroutine back to its pre-call value within 200 ms of quiescence polling; otherwise the goroutine dump decides (hash frames = leak, anything else = inconclusive)",
+		"goroutine conservation: hash.worker.start events = hash.worker.exit events and runtime.NumGoroutine back to its pre-call value within 10 s of quiescence polling; otherwise the goroutine dump decides (hash frames = leak, anything else = inconclusive)",
 		"a crash, race report or stall of a child worker is attributed to the case announced last in its log",
 		"read errors are produced with /proc/self/mem (opens, reads fail with EIO); file-descriptor counts are not judged",
 	})
